@@ -29,7 +29,7 @@ type Case struct {
 	NPoller   int       `json:"npoller"`
 	ReadBuf   int       `json:"read_buffer"`
 	MaxReads  int       `json:"max_reads"`
-	Conns     [][]Burst `json:"conns,omitempty"`  // stream transports: per connection bursts
+	Conns     [][]Burst `json:"conns,omitempty"`   // stream transports: per connection bursts
 	Remotes   []int     `json:"remotes,omitempty"` // udp: datagrams per remote
 	DgSizes   []int     `json:"dg_sizes,omitempty"`
 	Window    int       `json:"udp_window,omitempty"`
@@ -43,10 +43,10 @@ const window = 4 * time.Second
 var udpRcvBuf int64
 
 type connState struct {
-	idx  int
-	pos  int64
-	bad  string
-	nCb  int64
+	idx int
+	pos int64
+	bad string
+	nCb int64
 }
 
 func newEngine(c Case) (*nbio.Engine, func()) {
